@@ -289,3 +289,68 @@ impl<const TAG: u8> std::fmt::Debug for TrackedW<TAG> {
         self.0.fmt(f)
     }
 }
+
+/// Large variant of [`Tracked`] (313 bytes of payload after the tracked word, size 320, alignment 8):
+/// exercises any size-dependent path (in-place cloning of "large" values and the like).
+#[repr(C)]
+pub struct TrackedB<const TAG: u8>(Tracked<TAG>, [u8; 297]);
+impl<const TAG: u8> TrackedB<TAG> {
+    pub fn new(val: u32) -> Self {
+        TrackedB(Tracked::new(val), [0x42; 297])
+    }
+    pub fn peek(&self) -> Peek {
+        let mut p = self.0.peek();
+        if p.intact() && self.1.iter().any(|b| *b != 0x42) {
+            p.magic = 0x0BAD_0BAD_0BAD_0BAD; // the tail of the large value is damaged
+        }
+        p
+    }
+    pub fn id(&self) -> u32 {
+        self.0.id()
+    }
+    pub fn val(&self) -> u32 {
+        self.0.val()
+    }
+    pub fn set_val(&mut self, v: u32) {
+        self.0.set_val(v)
+    }
+    pub fn flip(&mut self) {
+        self.0.flip()
+    }
+}
+impl<const TAG: u8> Clone for TrackedB<TAG> {
+    fn clone(&self) -> Self {
+        TrackedB(self.0.clone(), self.1)
+    }
+}
+impl<const TAG: u8> Default for TrackedB<TAG> {
+    fn default() -> Self {
+        TrackedB::new(0)
+    }
+}
+impl<const TAG: u8> PartialEq for TrackedB<TAG> {
+    fn eq(&self, o: &Self) -> bool {
+        self.0 == o.0
+    }
+}
+impl<const TAG: u8> Eq for TrackedB<TAG> {}
+impl<const TAG: u8> PartialOrd for TrackedB<TAG> {
+    fn partial_cmp(&self, o: &Self) -> Option<std::cmp::Ordering> {
+        self.0.partial_cmp(&o.0)
+    }
+}
+impl<const TAG: u8> Ord for TrackedB<TAG> {
+    fn cmp(&self, o: &Self) -> std::cmp::Ordering {
+        self.0.cmp(&o.0)
+    }
+}
+impl<const TAG: u8> std::hash::Hash for TrackedB<TAG> {
+    fn hash<H: std::hash::Hasher>(&self, h: &mut H) {
+        self.0.hash(h)
+    }
+}
+impl<const TAG: u8> std::fmt::Debug for TrackedB<TAG> {
+    fn fmt(&self, f: &mut std::fmt::Formatter<'_>) -> std::fmt::Result {
+        self.0.fmt(f)
+    }
+}
